@@ -135,11 +135,17 @@ def gen_case(rng, tier, index):
             "outside", "nested", "restore-empty", "offset-expr-cfa",
             "rel-without-offset", "missing-symbol", "arity", "bad-escape",
             "restore-no-rule", "unknown-directive", "unsupported-escape",
-            "offset-no-cfa"])
+            "offset-no-cfa", "endproc-outside"])
         pos = rng.randrange(0, len(seq) + 1)
         if defect == "outside":
             seq.insert(0 if rng.random() < 0.5 else len(seq),
                        [".cfi_def_cfa_offset", [8], None])
+        elif defect == "endproc-outside":
+            # a stray .cfi_endproc: in front of everything, or a procedure
+            # closed twice
+            ends = [i for i, d in enumerate(seq) if d[0] == ".cfi_endproc"]
+            seq.insert(0 if rng.random() < 0.3 else rng.choice(ends) + 1,
+                       [".cfi_endproc", [], None])
         elif defect == "nested":
             inner = [i for i, d in enumerate(seq)
                      if d[0] == ".cfi_startproc"]
@@ -247,7 +253,12 @@ def build(case):
         s.module = m
         syms[nme] = s
     table = {}
-    for b, o, ds in case["locs"]:
+    # the table is a mapping: the order in which its keys were inserted
+    # carries no meaning
+    import random as _random
+    locs = list(case["locs"])
+    _random.Random(case["shuffle"]).shuffle(locs)
+    for b, o, ds in locs:
         table[gtirb.Offset(blocks[b], o)] = [
             (d[0], list(d[1]), syms[d[2]] if d[2] else NULL) for d in ds]
     m.aux_data["cfiDirectives"] = gtirb.AuxData(
